@@ -168,6 +168,55 @@ pub struct SimCore {
     pub trace_out: RefCell<Vec<TraceStep>>,
     pub batch_p: u32,
     pub spurious_p: u32,
+    /// how the cancellation value is represented inside the `Box<dyn Any>` (see `box_token`)
+    pub token_repr: u8,
+}
+
+/// The cancellation value crosses the seam as `Box<dyn Any>`; callers use whatever type they like, so the simulator
+/// varies it: 0 = the `Token` struct, 1 = `String`, 2 = `&'static str`, 3 = `u64`, 4 = a tuple, 5 = a unit-like marker
+/// type next to a side channel (the value itself carries nothing; identity is the poll recorded when it was handed out).
+pub fn box_token(repr: u8, t: &Token) -> Box<dyn std::any::Any> {
+    match (repr, t) {
+        (1, Token::Cancel { solve, poll }) => Box::new(format!("cancel:{solve}:{poll}")),
+        (2, Token::Cancel { solve, poll }) if *poll < 4096 && *solve < 8 => Box::new(static_token(*solve, *poll)),
+        (3, Token::Cancel { solve, poll }) if *solve < (1 << 16) && *poll < (1 << 40) => Box::new(((*solve as u64) << 40) | *poll),
+        (4, Token::Cancel { solve, poll }) => Box::new((*solve, *poll)),
+        _ => Box::new(t.clone()),
+    }
+}
+
+fn static_token(solve: usize, poll: u64) -> &'static str {
+    static TABLE: std::sync::OnceLock<Vec<&'static str>> = std::sync::OnceLock::new();
+    let t = TABLE.get_or_init(|| {
+        (0..8 * 4096usize).map(|i| &*Box::leak(format!("cancel:{}:{}", i / 4096, i % 4096).into_boxed_str())).collect()
+    });
+    t[solve * 4096 + poll as usize]
+}
+
+/// Inverse of `box_token`: `None` if the value is not one the simulator handed out.
+pub fn unbox_token(v: &dyn std::any::Any) -> Option<Token> {
+    if let Some(t) = v.downcast_ref::<Token>() {
+        return Some(t.clone());
+    }
+    let parse = |s: &str| -> Option<Token> {
+        let mut it = s.strip_prefix("cancel:")?.split(':');
+        let solve = it.next()?.parse().ok()?;
+        let poll = it.next()?.parse().ok()?;
+        Some(Token::Cancel { solve, poll })
+    };
+    if let Some(s) = v.downcast_ref::<String>() {
+        return parse(s);
+    }
+    if let Some(s) = v.downcast_ref::<&'static str>() {
+        return parse(s);
+    }
+    if let Some(x) = v.downcast_ref::<u64>() {
+        return Some(Token::Cancel { solve: (*x >> 40) as usize, poll: *x & ((1 << 40) - 1) });
+    }
+    if let Some((solve, poll)) = v.downcast_ref::<(usize, u64)>() {
+        return Some(Token::Cancel { solve: *solve, poll: *poll });
+    }
+    None
 }
 
 pub const Y_CAND: u8 = 1;
